@@ -3,7 +3,8 @@
 Correspondence: overlap_integral(basis, transform, tol_screen) and
 Overlap.construct_array_contraction(sa, sb, tol_screen) of /repo against the exact Coq model
 (coq/Model/Screening.v; runner commands 230-233, evaluated by the extracted model at exact rationals,
-ln / sqrt / exp / pi by the mpmath oracle).
+ln / sqrt / exp / pi by the mpmath oracle).  A seeded subset of the decision commands is re-evaluated inside
+Coq by vm_compute (generated _work/cases_c20.v) and must agree exactly with the extracted model.
 
 The model decides a pair by comparing squares, d^2 > -(a+b)/(ab) ln tol (exact up to the 72-bit
 logarithm); the code compares floating-point square roots.  A pair whose centre distance lies within
@@ -560,7 +561,7 @@ def gen_minmax_pair(rng):
 
 def special_cases(rng, tier):
     cases = []
-    nn = 24 if tier == "quick" else 120
+    nn = 24 if tier == "quick" else 300
     for i in range(nn):
         sa, sb, tol = gen_pair_at(rng, None)
         if i % 2 == 0:
@@ -570,7 +571,7 @@ def special_cases(rng, tier):
             extra.coord = [Fraction(rng.randint(-64, 64), 16) for _ in range(3)]
             cases.append({"kind": "basis", "stream": "near", "basis": [s.to_json() for s in (sa, sb, extra)],
                           "tols": [str(tol)], "model_tol": -1, "model_none": False})
-    ne = 32 if tier == "quick" else 200
+    ne = 32 if tier == "quick" else 400
     for i in range(ne):
         e = 20 if i % 4 < 2 else 27
         f = 1 + Fraction(1 if i % 2 == 0 else -1, 2 ** e)
@@ -581,7 +582,7 @@ def special_cases(rng, tier):
         else:
             cases.append({"kind": "basis", "stream": "edge", "basis": [sa.to_json(), sb.to_json()],
                           "tols": [str(tol)], "model_tol": 0, "model_none": False})
-    nm = 24 if tier == "quick" else 150
+    nm = 24 if tier == "quick" else 300
     for i in range(nm):
         sa, sb, tol = gen_minmax_pair(rng)
         if i % 3 != 2:
@@ -591,7 +592,7 @@ def special_cases(rng, tier):
             cases.append({"kind": "basis", "stream": "minmax", "basis": [sa.to_json(), sb.to_json()],
                           "tols": [str(tol)], "model_tol": 0, "model_none": False})
     # block level, random: several tolerances and None on one pair
-    nb = 32 if tier == "quick" else 200
+    nb = 32 if tier == "quick" else 400
     for i in range(nb):
         sa = c20_shell(rng, l=i % 4, kmax=4, mmax=3, sph=False)
         sb = c20_shell(rng, l=(i // 4) % 4, kmax=4, mmax=3, sph=False)
@@ -611,7 +612,7 @@ def special_cases(rng, tier):
 def gen_cases(tier, seed):
     rng = random.Random(2000003 * seed + 20)
     cases = []
-    nb = 96 if tier == "quick" else 600
+    nb = 96 if tier == "quick" else 1500
     for i in range(nb):
         stream = "grid" if i % 6 == 5 else "rand"
         bits = 53 if (tier == "thorough" and i % 10 == 7) else 8
@@ -665,9 +666,96 @@ def shrink_case(case):
                 yield c
 
 
+# ----------------------------------------------------------------------------------------------
+# in-Coq cross-check of the extracted decision function (the only user of the extracted order test)
+# ----------------------------------------------------------------------------------------------
+def _coq_sx(text):
+    """Driver wire text -> Coq term of type sx."""
+    import re
+
+    out = []
+    prev_item = False
+    for t in re.findall(r"[()]|[^\s()]+", text):
+        if t == "(":
+            if prev_item:
+                out.append("; ")
+            out.append("SL [")
+            prev_item = False
+        elif t == ")":
+            out.append("]")
+            prev_item = True
+        else:
+            if prev_item:
+                out.append("; ")
+            if "/" in t:
+                a, b = t.split("/")
+                out.append("SQ (%s)%%Z (%s)%%positive" % (a, b))
+            else:
+                out.append("SZ (%s)%%Z" % t)
+            prev_item = True
+    return "".join(out)
+
+
+def coq_crosscheck(rep, cases, seed, nmax=16):
+    """Evaluate a seeded subset of the decision commands (230) inside Coq with vm_compute, the logarithm
+    being the table of oracle values the extracted model received; results must be identical."""
+    import os
+    import subprocess
+
+    from lib import VERIF, WORK, ModelProc
+
+    rng = random.Random(seed * 7919 + 5)
+    cmds = []
+    pool = [c for c in cases if c["kind"] in ("basis", "block")]
+    rng.shuffle(pool)
+    for c in pool:
+        shells = [XShell.from_json(s) for s in (c["basis"] if c["kind"] == "basis" else [c["a"], c["b"]])]
+        for t in c["tols"]:
+            cmds.append("(230 %s %s %s)" % (tol_sx(parse_tol(t)), shells[0].sx(), shells[1].sx()))
+        if len(cmds) >= nmax:
+            break
+    cmds = cmds[:nmax]
+    if not cmds:
+        return
+    m = ModelProc()
+    m.log = []
+    pairs = [(c, m.call_raw(c).strip()) for c in cmds]
+    m.close()
+    lns = [(arg, val) for (fn, extra, arg, val) in m.log if fn == "ln"]
+    tbl = "qc_of 0 1"
+    for arg, val in reversed(lns):
+        tbl = "if qc_eqb x (qc_of (%d)%%Z (%d)%%positive) then qc_of (%d)%%Z (%d)%%positive else %s" % (
+            arg.numerator, arg.denominator, val.numerator, val.denominator, tbl)
+    src = ["From Coq Require Import ZArith QArith Qcanon List Bool.",
+           "From GB Require Import Base.Field Extract.Sx Extract.Run.", "Import ListNotations.",
+           "Definition lnT (x : Qc) : Qc := %s." % tbl,
+           "Definition zq : Qc := qc_of 0 1.",
+           "Definition KT : Fops Qc := QcK (qc_of (%d)%%Z (%d)%%positive) (fun _ => zq) (fun _ => zq) lnT (fun _ _ => zq)."
+           % (m.pi.numerator, m.pi.denominator),
+           "Definition cases : list (sx * sx) := ["]
+    src.append(";\n".join("  (%s, %s)" % (_coq_sx(c), _coq_sx(r)) for c, r in pairs))
+    src.append("].")
+    src.append("Eval vm_compute in (forallb (fun ce => sx_eqb (run KT (fst ce)) (snd ce)) cases, length cases).")
+    path = os.path.join(WORK, "cases_c20.v")
+    with open(path, "w") as f:
+        f.write("\n".join(src) + "\n")
+    p = subprocess.run(["timeout", "300", "coqc", "-Q", os.path.join(VERIF, "coq"), "GB", path],
+                       capture_output=True, text=True, cwd=WORK)
+    ok = p.returncode == 0 and ("(true, %d%%nat)" % len(pairs)) in p.stdout.replace("\n", " ")
+    rep.dist["stat:decisions cross-checked in Coq (vm_compute)"] = len(pairs) if ok else 0
+    if not ok:
+        rep.violation({"coq_crosscheck": path}, {"note": "extracted model and in-Coq vm_compute evaluation of the "
+                      "screening decision disagree (or the generated file does not compile)",
+                      "coq_output": (p.stdout + p.stderr)[-1500:]}, kind="proof-obligation")
+
+
 def run(rep, tier, seed, model, replay):
     if replay is not None:
+        if "case" not in replay or "kind" not in replay["case"]:
+            return                                  # proof-obligation replays carry no input case
         cases = [replay["case"]]
     else:
         cases = gen_cases(tier, seed)
     run_cases(rep, cases, eval_case, shrinkfn=shrink_case)
+    if replay is None and model is not None:
+        coq_crosscheck(rep, cases, seed)
